@@ -30,9 +30,27 @@ fn hostile_formats() -> Vec<String> {
     v
 }
 
+/// structural characters of the three AST formats (and of FML itself), to be strung together at random
+const HOSTILE_PIECES: [&str; 58] = [
+    "(", ")", " (", ") ", "))", "((", ") (", "[", "]", "{", "}", "\\\"", "'", "\\\\", ";", "#", ",", ".", ":", ": ", " :", "- ", "|", ">", "&", "*", "!", "?", "%", "@", "\\~", " ", "  ", "\n", "\t", "\r", "/", "//", "/*", "*/", "=",
+    "a", "b", "0", "1", "null", "\\n", "\\t", "`", "$", "^", "+", "<", "_", "\u{e9}", "\u{2028}", "#|", "|#",
+];
+
 fn hostile_case(rng: &mut Rng, index: u64) -> AST {
+    // every third case draws its strings from random concatenations of structural characters
+    // (unbalanced brackets and quotes, indicators after blanks, comment openers …) instead of the list
+    let formats = if index % 3 == 0 {
+        (0..12)
+            .map(|_| {
+                let n = 1 + rng.below(if index % 2 == 0 { 8 } else { 24 });
+                (0..n).map(|_| HOSTILE_PIECES[rng.below(HOSTILE_PIECES.len())]).collect::<String>()
+            })
+            .collect()
+    } else {
+        hostile_formats()
+    };
     let mut w = gen::Wild::new(rng, 30 + (index % 50) as i32, true);
-    w.formats = Some(hostile_formats());
+    w.formats = Some(formats);
     w.program(2 + (index % 3) as u32)
 }
 
@@ -365,14 +383,24 @@ fn c06_cli(rep: &mut Report, origin: &str, src: &str, ast: &AST, cfg: &Config, d
     if cfg.parse_in == 0 {
         args.push(input.to_str().unwrap().into());
     }
+    // explicit output files sometimes live in an unusually named directory and are named relative
+    // to the working directory (HOME points elsewhere): the file must appear exactly there
+    let odd_dir = ["", "", "", "~", "sp ace", "\u{fc}n\u{ef}/c\u{f4}d\u{e9}", "$HOME", "a*b[c]?", "dot.ted.json", "-dash"][((idx.wrapping_mul(0x9E37_79B9_7F4A_7C15) >> 33) % 10) as usize];
+    let home = d.join("home-elsewhere");
+    let _ = std::fs::create_dir_all(&home);
+    let odd_home = home.to_str().unwrap().to_string();
     let ast_path = match cfg.parse_out {
         0 => {
-            let p = d.join(format!("ast.{}", ext));
+            let rel = std::path::Path::new(odd_dir).join(format!("ast.{}", ext));
+            let p = d.join(&rel);
+            if let Some(parent) = p.parent() {
+                let _ = std::fs::create_dir_all(parent);
+            }
             if cfg.prefill {
                 let _ = std::fs::write(&p, &junk);
             }
             args.push("-o".into());
-            args.push(p.to_str().unwrap().into());
+            args.push(if odd_dir.is_empty() { p.to_str().unwrap().into() } else { format!("{}{}", if odd_dir.starts_with('-') { "./" } else { "" }, rel.to_str().unwrap()) });
             Some(p)
         }
         1 => {
@@ -394,10 +422,11 @@ fn c06_cli(rep: &mut Report, origin: &str, src: &str, ast: &AST, cfg: &Config, d
         args.push(spell[(idx as usize / 3) % spell.len()].to_string());
     }
     let argv: Vec<&str> = args.iter().map(|s| s.as_str()).collect();
-    let mut spec = cli::Spec::new(&argv);
+    let mut spec = cli::Spec::new(&argv).cwd(&d).env("HOME", &odd_home);
     if cfg.parse_in == 1 {
         spec = with_stdin(spec, src.as_bytes());
     }
+    rep.bump("c06-config-output-directory", if odd_dir.is_empty() { "plain (absolute path)" } else { odd_dir });
     let p = cli::run(spec);
     let parse_rejected_by_run = !run.success() && run.stdout.is_empty() && real::parse(src).is_err();
     if !p.success() {
@@ -451,12 +480,16 @@ fn c06_cli(rep: &mut Report, origin: &str, src: &str, ast: &AST, cfg: &Config, d
     }
     let bc_path = match cfg.compile_out {
         0 => {
-            let pth = d.join("prog.bc");
+            let rel = std::path::Path::new(odd_dir).join("prog.bc");
+            let pth = d.join(&rel);
+            if let Some(parent) = pth.parent() {
+                let _ = std::fs::create_dir_all(parent);
+            }
             if cfg.prefill {
                 let _ = std::fs::write(&pth, &junk);
             }
             args.push("-o".into());
-            args.push(pth.to_str().unwrap().into());
+            args.push(if odd_dir.is_empty() { pth.to_str().unwrap().into() } else { format!("{}{}", if odd_dir.starts_with('-') { "./" } else { "" }, rel.to_str().unwrap()) });
             Some(pth)
         }
         1 => {
@@ -471,7 +504,7 @@ fn c06_cli(rep: &mut Report, origin: &str, src: &str, ast: &AST, cfg: &Config, d
         _ => None,
     };
     let argv: Vec<&str> = args.iter().map(|s| s.as_str()).collect();
-    let mut spec = cli::Spec::new(&argv);
+    let mut spec = cli::Spec::new(&argv).cwd(&d).env("HOME", &odd_home);
     if compile_input.is_none() {
         spec = with_stdin(spec, &ast_text);
     }
@@ -650,6 +683,23 @@ pub fn c06(ctx: &Ctx, rep: &mut Report) {
                 let cfg = random_config(&mut rng);
                 c06_cli(rep, &format!("corpus:{}", p.display()), &src, &ast, &cfg, &dir, k);
             }
+        }
+    }
+    // the deterministic stress shapes (boundary sizes, name clashes between fields, methods and
+    // built-ins, literals that are never evaluated, long histories) through the staged tools
+    for (name, src) in stress_sources() {
+        k += 1;
+        if !ctx.mine(k) {
+            continue;
+        }
+        if let Ok(ast) = real::parse(&src) {
+            c06_inprocess(rep, &format!("stress:{}", name), &ast, &src);
+            let mut rng = ctx.rng("C06stress", k);
+            for j in 0..(if ctx.quick() { 1 } else { 3 }) {
+                let cfg = random_config(&mut rng);
+                c06_cli(rep, &format!("stress:{}", name), &src, &ast, &cfg, &dir, k * 4 + j);
+            }
+            rep.bump("c06-source", "stress shapes");
         }
     }
     // generated programs with hostile strings
